@@ -55,6 +55,11 @@ CLAIMS = {
         text="Dispatch and transform are pure TLA+ operators; the result of transform is a term (same object / none / new node with per-field `unchanged value object` or child terms / raise). TLC checks that rule sets changing nothing return the tree itself and that strict dispatch never fires a base-class rule for a subclass, and exports for every tree of <= N objects every rule set of at most two rules over five rule kinds, strict and non-strict, plus the dispatch table for every class x method subset. The driver generates the visitor class, runs transform and compares identities (`is` on unchanged subtrees and field values, new nodes on every ancestor of a change), dropped tuple elements, None in single fields, exception propagation, and that input fingerprints and registration are unchanged. Random trees x random rule sets over ten classes are recorded and validated by Trace_Visitor.tla.",
         note="Trusted: TLC, zoo renderer. The rule family is the one named in the statement; visit_ methods call generic_visit first (bottom-up). validate=True naming checks are not part of this check.",
         design="6 C09"),
+    "C15": dict(
+        technique="TLA+ oracle (Origin.tla) with TLAPS proofs of the interval laws for all naturals + exhaustive TLC case enumeration on a grid replayed into pyoak.origin + TLC trace validation on large indices / longer operand tuples",
+        text="Containment, overlap, before, hull are TLA+ operators on ranges and merge / concat / + are operators on origin terms; TLAPS proves the 13 interval-law obligations for all naturals (partial order of containment, symmetric overlap incl. touching, Lt, hull contains both operands / commutative / associative / idempotent / smallest) and TLC re-checks them plus flatness of merge / concat on the grid. Every pair and triple of the 21 ranges on 0..5, every point / range construction incl. ill-formed ones, every tuple of up to 4 of 8 origin atoms over 3 sources (multi-origin operands as produced by merge) and get_raw for every range over texts of length <= 6 is exported with its expected result and replayed (results abstracted by type, source, range, member order; source sets; fqn; slices). Ranges on indices up to 2^30 and operand tuples up to 6 are recorded and validated by Trace_Origin.tla.",
+        note="Trusted: TLAPS back ends (SMT), TLC. fqn punctuation is rendered by the driver from the spec's member list; user-built nested multi-origins are outside the stated precondition.",
+        design="6 C15"),
     "C10": dict(
         technique="TLA+ action properties (Immutable, MembershipFrame, FailFrame) on Registry.tla + Observe actions replayed with per-step fingerprints of every live node",
         text="In the Registry machine no action changes the record of a surviving slot (Immutable) and registry membership changes only in detach / detach_self / replace on the receiver's subtree (MembershipFrame); Observe actions stand for every read-only operation kind (traversals, Tree queries, xpath, patterns, visitors, transformers, comparison, hashing, rich printing, accessors, (de)serialization, setattr / delattr on every field) and are UNCHANGED. TLC exports every transition; the driver fingerprints every live node before each call and compares after it, and compares the whole abstract state with the spec's. Recorded histories are checked the same way at every step.",
